@@ -72,6 +72,9 @@ def leaf_variants(thorough: bool) -> List[Tuple[str, dict]]:
     V.append(("value-at-upper", M.spec("C", {"C": [1e3, 1e-24, 1e3, False]})))
     V.append(("value-many-digits", M.spec("R", {"R": [1234.5678901234567, 0.0, inf, False]})))
     V.append(("value-negative", M.spec("K", {"R": [-2.5, -inf, inf, False]})))
+    V.append(("value-negative-zero-at-lower", M.spec("R", {"R": [-0.0, 0.0, inf, False]})))
+    V.append(("value-negative-zero-free", M.spec("K", {"R": [-0.0, -inf, inf, False]})))
+    V.append(("value-zero-at-negative-zero-upper", M.spec("K", {"R": [0.0, -inf, -0.0, False]})))
     V.append(("limits-tight", M.spec("R", {"R": [50.0, 10.0, 200.0, False]})))
     V.append(("limits-tight-Q", M.spec("Q", {"Y": [3e-5, 1e-6, 1e-3, False], "n": [0.5, 0.25, 0.75, True]}, label="x_1")))
     V.append(("limits-inf", M.spec("C", {"C": [2e-6, -inf, inf, False]})))
@@ -389,7 +392,7 @@ def run(ctx) -> None:
     _setup()
     ctx.rule = ("circuit ASTs = every canonical skeleton with <= 3 (quick) / <= 4 (thorough) leaves and the object-only shapes; one focus leaf "
                 "takes every element variant (7 classes incl. a private one and the container; 13 labels covering every first-character class "
-                "and CDC metacharacter; fixed flags flipped; values at/inside limits, many-digit and negative values; limits tightened, +-inf, "
+                "and CDC metacharacter; fixed flags flipped; values at/inside limits, many-digit and negative values, negative zero; limits tightened, +-inf, "
                 "huge finite, both above / both below the class defaults; container sub-circuits open/short/[R]/[RC]/(RC)/[R(RC)]/[Tlm]) at "
                 "every position, other leaves are R/C/Tlm fillers. (A) serialize with 1/3/12/17 decimals -> parse -> compare with the AST; fixed "
                 "point; copy/deepcopy; impedance. (B) every spelling with <= 2 (quick) / <= 3 (thorough) of 12 printer switches off the canonical "
